@@ -322,6 +322,19 @@ def run(ctx):
             for cls, y in (("y=0", 0), ("y=1", 1), ("y=p-1", ps.v["p"] - 1), ("y=p", ps.v["p"]), ("y=p+1", ps.v["p"] + 1), ("y=seeded", rng.randrange(2, ps.v["p"])),
                            ("y=all-ones", (1 << (8 * no)) - 1)):
                 cmds.append("pubkeyVal %s Q=%s cls=%s" % (base, G.hx(y, no), cls))
+            # word-structured comparisons: the part above a split point greater and the part below smaller (y > p), and the
+            # converse (y < p), for split points at word / half-word boundaries from both ends (partial top words included)
+            P = ps.v["p"]
+            for sbits in sorted(set([32, 64, 128, 8 * no - 64, 8 * no - 32, 8 * no - 8, 8 * (no // 2), 8 * (no - no % 8), 8 * (no - no % 4)])):
+                if sbits <= 0 or sbits >= 8 * no:
+                    continue
+                mask = (1 << sbits) - 1
+                hi, lo = P >> sbits, P & mask
+                if (hi + 1) << sbits < (1 << (8 * no)) and lo > 0:
+                    cmds.append("pubkeyVal %s Q=%s cls=y-hi-greater-lo-smaller@%d" % (base, G.hx(((hi + 1) << sbits) | (lo - 1), no), sbits))
+                    cmds.append("pubkeyVal %s Q=%s cls=y-hi-greater-lo-zero@%d" % (base, G.hx((hi + 1) << sbits, no), sbits))
+                if hi > 0:
+                    cmds.append("pubkeyVal %s Q=%s cls=y-hi-smaller-lo-greater@%d" % (base, G.hx(((hi - 1) << sbits) | mask, no), sbits))
     # parameter generation from the standard seeds (stb99: every level; pfok: the test level - the others take hours)
     for nm in ["test", "1.2.112.0.2.0.1176.2.3.3.1", "1.2.112.0.2.0.1176.2.3.6.1", "1.2.112.0.2.0.1176.2.3.10.1"]:
         cmds.append("paramsGen scheme=stb99 name=%s cls=from-standard-seed" % nm)
